@@ -18,20 +18,6 @@ def showBackend : Gen.Backend → String
   | .newton => "newton" | .bregman => "bregman" | .emd => "emd"
 
 def handle : List String → Option String
-  | "uflux" :: rest => do
-    -- unique mass-conserving flux on the 1-D grid [n], voxel size h0, mass difference f
-    let ((n, h0, f), _) ← (do let n ← P.nat; let h ← P.rat; let f ← P.list P.rat; pure (n, h, f)).run rest
-    pure (showRats ((List.range (n - 1)).map (uniqueFlux1d h0 (fn f))))
-  | "feas" :: rest => do
-    let ((shape, h, f, u), _) ← (do
-      let s ← P.list P.nat; let h ← P.list P.rat; let f ← P.list P.rat; let u ← P.list P.rat; pure (s, h, f, u)).run rest
-    pure (showBool (feasibleB shape h (fn f) (fn u)))
-  | "cost1d" :: rest => do
-    -- cost on the 1-D grid [n] for a quadrature rule with rational nodes: nq, weights, nodes; flux u
-    let ((n, h0, wq, pq, u), _) ← (do
-      let n ← P.nat; let h ← P.rat; let w ← P.list P.rat; let p ← P.list P.rat; let u ← P.list P.rat
-      pure (n, h, w, p, u)).run rest
-    pure (showRat (cost (normAxis 0) [n] [h0] wq.length (fn wq) (fun q => [pq.getD q 0]) (fun _ _ => 1) (fn u)))
   | "thin" :: rest => do
     -- thin grid: shape, voxel sizes, axis a, quadrature weights, nodes (nq·dim numbers, node-major), mass difference f.
     -- response: thinB, feasibility of the prefix-sum flux, its flat values, its exact cost (|component a| = Euclidean norm)
